@@ -30,6 +30,27 @@ func mergeWorld(r *R) {
 }
 
 func chansMergeScenario(r *R) {
+	if r.Choose(4, "elem-type") == 3 {
+		// interface-typed elements, one of which is a nil interface value
+		nilCode := r.Choose(4, "nil-input")*100 + r.Choose(3, "nil-index")
+		r.Probe("chans-merge-interface-elements")
+		chansMergeRun[any](r, func(v int) any {
+			if v == nilCode {
+				return nil
+			}
+			return v
+		}, func(x any) int {
+			if x == nil {
+				return nilCode
+			}
+			return x.(int)
+		})
+		return
+	}
+	chansMergeRun[int](r, func(v int) int { return v }, func(v int) int { return v })
+}
+
+func chansMergeRun[T any](r *R, enc func(int) T, dec func(T) int) {
 	arity := []int{2, 0, 1, 3, 4, 6}[r.Choose(6, "arity")]
 	switch {
 	case arity <= 3:
@@ -38,13 +59,13 @@ func chansMergeScenario(r *R) {
 		r.Probe("chans-arity-many")
 	}
 	outBuf := r.Choose(3, "outbuf")
-	out := make(chan int, outBuf)
-	ins := make([]chan int, arity)
-	roIns := make([]<-chan int, arity)
+	out := make(chan T, outBuf)
+	ins := make([]chan T, arity)
+	roIns := make([]<-chan T, arity)
 	counts := make([]int, arity)
 	total := 0
 	for i := range ins {
-		ins[i] = make(chan int, r.Choose(2, "inbuf"))
+		ins[i] = make(chan T, r.Choose(2, "inbuf"))
 		roIns[i] = ins[i]
 		counts[i] = r.Choose(4, "count")
 		if counts[i] == 0 {
@@ -61,7 +82,7 @@ func chansMergeScenario(r *R) {
 			for j := 0; j < counts[i]; j++ {
 				Spin(pace, "producer-pace")
 				sim.Self().Label = fmt.Sprintf("producer%d send #%d", i, j)
-				sim.Send(ins[i], i*100+j, "producer-send")
+				sim.Send(ins[i], enc(i*100+j), "producer-send")
 			}
 			Spin(pace, "producer-pace")
 			closed++ // counted before the close becomes visible: Merge can only return after it
@@ -73,6 +94,14 @@ func chansMergeScenario(r *R) {
 	var mergeRetSeq uint64
 	sim.GoNamed("merger", func() {
 		sim.Self().Label = "chans.Merge"
+		defer func() {
+			if p := recover(); p != nil {
+				if p == sim.Killed {
+					panic(p)
+				}
+				r.Violate("C12", fmt.Sprintf("chans-merge/panic/arity-%s", arityClass(arity)), "chans.Merge panicked: %v", p)
+			}
+		}()
 		chans.Merge(out, roIns...)
 		mergeReturned = true
 		mergeRetSeq = sim.Seq()
@@ -93,7 +122,7 @@ func chansMergeScenario(r *R) {
 		for got < total {
 			Spin(cpace, "consumer-pace")
 			sim.Self().Label = fmt.Sprintf("consumer recv #%d", got)
-			v := sim.Recv(out, "consumer-recv")
+			v := dec(sim.Recv(out, "consumer-recv"))
 			r.Hist("recv", v)
 			r.Logf("consumer received %d", v)
 			i, j := v/100, v%100
@@ -141,6 +170,10 @@ func arityClass(a int) string {
 
 func replicateScenario(r *R) {
 	nd := r.Choose(4, "dsts")
+	if r.Choose(12, "very-many-dsts") == 11 {
+		nd = 62 + r.Choose(8, "dsts-over-60")
+		r.Probe("replicate-over-60-dsts")
+	}
 	if nd == 0 {
 		r.Probe("replicate-0-dsts")
 	} else if nd >= 2 {
@@ -248,6 +281,10 @@ func streamMergeScenario(r *R) {
 			s.BlockAt = r.Choose(n+1, "block-at")
 			blocks = true
 		}
+		if r.Choose(5, "slow-close") == 4 {
+			s.CloseDelay = time.Duration(1+r.Choose(5, "slow-close-d")) * 11 * time.Millisecond
+			r.Probe("stream-merge-slow-input-close")
+		}
 		if s.BlockAt < 0 && r.Choose(4, "ignore-ctx") == 3 {
 			s.IgnoreCtx = true // an input that does not react to cancellation (but does end by itself)
 		}
@@ -323,6 +360,17 @@ func streamMergeScenario(r *R) {
 			terminal = err
 			if err == stream.End {
 				r.Probe("stream-merge-end")
+				// End is due as soon as the last input has ended, not when the inputs' Close calls get done
+				due := c.InvAt
+				for _, s := range srcs {
+					if s.EndAt > due {
+						due = s.EndAt
+					}
+				}
+				if c.RetAt > due {
+					r.Violate("C12", "stream-merge/end-reported-late", "every input had ended by t=%v and Next was invoked at t=%v, but End was only reported at t=%v", time.Duration(due), time.Duration(c.InvAt), time.Duration(c.RetAt))
+					return
+				}
 				for i, s := range srcs {
 					if s.EndSeq == 0 || s.ErrAt >= 0 && s.Pos >= s.ErrAt {
 						r.Violate("C12", "stream-merge/end-before-inputs-exhausted", "End reported but input %d has not ended normally (pos=%d)", i, s.Pos)
